@@ -1,9 +1,215 @@
 import Blue.Proofs.Stall
-/-! Property C20: the theorems the check builds and audits (spike inventory; the build phase
-    completes the list from DESIGN Appendix C.0). -/
-#print axioms Blue.Stall.no_deadlock
-#print axioms Blue.Stall.stalled_has_runner
-#print axioms Blue.Stall.finish_shrinks
-#print axioms Blue.Stall.deadlock_when_selector_starves
-#print axioms Blue.Stall.deadlock_without_ingest_notify
-#print axioms Blue.Stall.sleeper_with_work
+import Blue.Proofs.Selector
+import Blue.Proofs.ConstsTieC20
+/-! # Property C20 — writes keep completing: ingest and compaction never wait on each other forever
+
+Property theorems only.  **The claim is partial.**
+
+`Blue.Stall` is the transition system of the stall / wake-up protocol of lsmtk/src/tree/mod.rs
+(`apply_manifest_ingest` waits on `stall` while `should_stall_ingest`; `compaction_thread` waits on
+`compact` while `next_compaction()` is `None`; an installing ingest notifies `compact`, an applied
+compaction notifies `stall` and not `compact`), one event per critical section under the
+`compaction` mutex, any number of ingesters and compaction threads, spurious wake-ups included.
+The selector's answer is part of the event (an observation of the run); what the protocol needs
+of it is `selOK` — the model's `Sel`: *no "nothing" while ingest is stalled and nothing is in
+flight*.  The recorded runs of the real store (real threads) are replayed through `step` by the
+driver with every event required to be enabled, `invB` evaluated after every event, the model's
+sleepers compared with the real parked-on registry at the end.
+
+What is proved: deadlock freedom by invariant under `Sel` for every schedule
+(`writes_never_all_parked`), the enabledness and measure halves of "stalled ingest is eventually
+released" (`stalled_has_runner`, `stalled_select_takes`, `finish_shrinks`, `finish_wakes`), "the
+event that creates work wakes every sleeping compaction thread" (`ingest_wakes`), and that `Sel`
+is necessary (`deadlock_when_selector_starves`, D-15) as is the notification
+(`deadlock_without_ingest_notify`).  `Blue.Selector` models `next_compaction().is_some()` on the
+tree metadata (compared with the real selector state by state) and gives `sel`, the
+characterisation of `Sel` on (|L0|, level-1 files under the hull, options): sound for the selector
+model up to one hypothesis (`sel_sound_partial`), it holds on every stalled tree within the file
+limits (`sel_or_overLimit`) and **fails** for option values the store accepts
+(`stall_above_file_limit`, `hull_above_file_limit`, `default_sel_fails_from_53`) — the known
+finding D-15.
+
+What is not: wall-clock "eventually" and scheduler fairness are not expressible; the temporal
+statement "every stalled ingest is released" is not formalised (only its enabledness and measure
+halves; compactions below level 0 between two relieving ones are not bounded by the model); `Sel`
+is a hypothesis on runs, discharged for the real selector only where `sel` holds. -/
+namespace Blue.Props.C20
+open Blue.Stall
+
+/-- **deadlock freedom (model level, partial: under `Sel`)**: from any state satisfying the
+    invariant, along every run on which the selector never answers "nothing" while ingest is
+    stalled and nothing is in flight, no state has every ingester and every compaction thread
+    asleep — every schedule, any number of threads, any compaction sizes, spurious wake-ups -/
+theorem writes_never_all_parked_partial (s0 : St) (h0 : Inv s0) (evs : List Ev) (hsel : runSel s0 evs = true) :
+    deadlocked (evs.foldl step s0) = false := no_deadlock s0 h0 evs hsel
+
+/-- a fresh store with at least one compaction thread satisfies the invariant, whatever the
+    thresholds (the hypothesis of the theorem above is on the selector alone) -/
+theorem fresh_store_inv (stallAt stallBytes ni nc : Nat) :
+    Inv ⟨stallAt, stallBytes, 0, 0, List.replicate ni .running, List.replicate (nc + 1) .running, false, true⟩ :=
+  inv_init stallAt stallBytes ni nc
+
+/-- the invariant along a run under `Sel` -/
+theorem inv_along_run {s : St} (h : Inv s) (evs : List Ev) (hok : runSel s evs = true) :
+    Inv (evs.foldl step s) := inv_run h evs hok
+
+/-- … and its executable form, the one the trace validator evaluates -/
+theorem inv_checkable {s : St} (h : Inv s) : invB s = true := invB_of_inv h
+
+/-- while an ingester is parked some compaction thread is awake (selecting or in flight) -/
+theorem stalled_has_runner {s : St} (h : Inv s) (hst : ∃ t ∈ s.ingesters, t = .waiting) :
+    ∃ t ∈ s.compactors, t ≠ .waiting := Blue.Stall.stalled_has_runner h hst
+
+/-- … and when it selects on an idle store, `Sel` makes it take a compaction -/
+theorem stalled_select_takes {s : St} (h : Inv s) (hst : ∃ t ∈ s.ingesters, t = .waiting)
+    {i : Nat} {a : Bool} (hidle : idle s = true) (hok : selOK s (.select i a) = true) : a = true :=
+  Blue.Stall.stalled_select_takes h hst hidle hok
+
+/-- a compaction that takes files out of a non-empty level 0 strictly shrinks it … -/
+theorem finish_shrinks {s : St} {i c b : Nat} (hin : s.compactors[i]? = some .inflight) (hc : 0 < c)
+    (hpos : 0 < s.l0) : (step s (.finish i c b)).l0 < s.l0 := Blue.Stall.finish_shrinks hin hc hpos
+
+/-- … and every applied compaction wakes every parked ingester -/
+theorem finish_wakes {s : St} {i c b : Nat} (hin : s.compactors[i]? = some .inflight) :
+    ∀ t ∈ (step s (.finish i c b)).ingesters, t ≠ .waiting := Blue.Stall.finish_wakes hin
+
+/-- a compaction thread sleeping for lack of work is woken by the event that creates work -/
+theorem ingest_wakes {s : St} {i b : Nat} (hn : s.ingestNotifies = true)
+    (hrun : s.ingesters[i]? = some .running) (hst : stalled s = false) :
+    ∀ t ∈ (step s (.ingest i b)).compactors, t ≠ .waiting := Blue.Stall.ingest_wakes hn hrun hst
+
+/-- **D-15 at model level**: one "nothing" on a stalled, idle tree and one ingester and one
+    compaction thread put each other to sleep; the run obeys `Sel` up to that answer -/
+theorem deadlock_when_selector_starves :
+    let s0 : St := ⟨1, 1000, 0, 0, [.running], [.running], false, true⟩
+    let evs := [Ev.ingest 0 10, .select 0 false, .ingest 0 10]
+    deadlocked (evs.foldl step s0) = true ∧ runSel s0 evs = false
+      ∧ runSel s0 (evs.take 1) = true ∧ selOK (evs.take 1 |>.foldl step s0) (.select 0 false) = false :=
+  Blue.Stall.deadlock_when_selector_starves
+
+/-- the mutant without `compact.notify_all()` in ingest deadlocks although the selector obeys `Sel` -/
+theorem deadlock_without_ingest_notify :
+    let s0 : St := ⟨1, 1000, 0, 0, [.running], [.running], false, false⟩
+    let evs := [Ev.select 0 false, .ingest 0 10, .ingest 0 10]
+    deadlocked (evs.foldl step s0) = true ∧ runSel s0 evs = true :=
+  Blue.Stall.deadlock_without_ingest_notify
+
+/-- as-is (O-4): a compaction thread sleeps on while the finisher selects the next compaction -/
+theorem sleeper_with_work :
+    let s0 : St := ⟨5, 1000, 0, 0, [.running], [.running, .running], false, true⟩
+    let evs := [Ev.ingest 0 10, .ingest 0 10, .ingest 0 10, .select 0 true, .select 1 false, .finish 0 1 10]
+    let s := evs.foldl step s0
+    s.compactors = [.running, .waiting] ∧ s.quiet = false ∧ runSel s0 (evs ++ [.select 0 true]) = true
+      ∧ (step s (.select 0 true)).compactors = [.inflight, .waiting] :=
+  Blue.Stall.sleeper_with_work
+
+/-! ### `sel`: the selector's side of `Sel` -/
+open Blue.Selector
+
+/-- `Sel` for one selection from the selector's side: a selector that offers a compaction whenever
+    `sel` holds of the tree it looks at, on trees where stalled implies `sel`, obeys `selOK` -/
+theorem selOK_of_sel (s : St) (i : Nat) (a : Bool) (o : Opts) (m : Summary)
+    (hspec : idle s = true → sel o m = true → a = true) (hcover : stalled s = true → sel o m = true) :
+    selOK s (.select i a) = true := Blue.Selector.selOK_of_sel s i a o m hspec hcover
+
+/-- `sel` is what it says: level 0 non-empty, the hull compaction within both file limits, and
+    mandatory or not losing bytes -/
+theorem sel_iff (o : Opts) (m : Summary) :
+    sel o m = true ↔
+      0 < m.l0 ∧ m.l0 + m.l1h ≤ o.maxCompactionFiles ∧ m.l0 + m.l1h < o.maxOpenFiles
+        ∧ (o.mandFiles ≤ m.l0 ∨ o.mandBytes ≤ m.l0b ∨ m.full = true ∨ m.l1hb ≤ m.l0b) :=
+  Blue.Selector.sel_iff o m
+
+/-- the selector model offers a compaction where `sel` holds (partial: `hullChoosable` —
+    `expand_compaction` adds nothing that takes the hull compaction to `max_open_files` — is a
+    hypothesis here; the driver evaluates it, and the whole implication, on every tree of the run) -/
+theorem sel_sound_partial (o : Opts) (l0 l1 : List File) (rest : List (List File))
+    (hsel : sel o (summary (l0 :: l1 :: rest)) = true) (hexp : hullChoosable o (l0 :: l1 :: rest) = true) :
+    nextSome o (l0 :: l1 :: rest) = true := Blue.Selector.sel_sound_partial o l0 l1 rest hsel hexp
+
+/-- on a stalled level 0 with the mandatory threshold not above the stall threshold, `sel` fails
+    only through a file limit -/
+theorem sel_or_overLimit (o : Opts) (m : Summary) (hpos : 0 < o.stallFiles)
+    (hmand : o.mandFiles ≤ o.stallFiles) (hst : o.stallFiles ≤ m.l0) :
+    sel o m = true ∨ overLimit o m = true := Blue.Selector.sel_or_overLimit o m hpos hmand hst
+
+/-- **D-15**: with `l0_write_stall_threshold_files > max_compaction_files` every tree on which
+    ingest waits is over the limit, `sel` fails on all of them … -/
+theorem stall_above_file_limit (o : Opts) (m : Summary) (h : o.maxCompactionFiles < o.stallFiles)
+    (hst : o.stallFiles ≤ m.l0) : overLimit o m = true ∧ sel o m = false :=
+  Blue.Selector.stall_above_file_limit o m h hst
+
+/-- … and with the limit above the threshold the level-1 files under the hull do the same … -/
+theorem hull_above_file_limit (o : Opts) (m : Summary) (h : o.maxCompactionFiles < m.l0 + m.l1h) :
+    sel o m = false := Blue.Selector.hull_above_file_limit o m h
+
+/-- … for the shipped defaults (stall at 12 files, 64 files per compaction) from 53 level-1 files
+    under the hull of level 0 on, and not before -/
+theorem default_sel_fails_from_53 (l0 l0b l1h l1hb : Nat) (full : Bool) (h0 : 12 ≤ l0) (h : 53 ≤ l1h) :
+    sel Blue.ConstsTie.lsmtkDefaults ⟨l0, l0b, l1h, l1hb, full⟩ = false :=
+  Blue.ConstsTie.default_sel_fails_from_53 l0 l0b l1h l1hb full h0 h
+
+theorem default_sel_upto_52 (l0b l1h l1hb : Nat) (full : Bool) (h : l1h ≤ 52) :
+    sel Blue.ConstsTie.lsmtkDefaults ⟨12, l0b, l1h, l1hb, full⟩ = true :=
+  Blue.ConstsTie.default_sel_upto_52 l0b l1h l1hb full h
+
+/-! ### non-vacuity -/
+
+/-- a run under `Sel` with a stall that is released: two ingests fill level 0 to the threshold, the
+    third parks, the compaction thread (woken by the first ingest) compacts, the parked ingest is
+    woken and installs; the invariant's executable form holds at the end -/
+example :
+    let s0 : St := ⟨2, 1000, 0, 0, [.running], [.running], false, true⟩
+    let evs := [Ev.select 0 false, .ingest 0 10, .ingest 0 10, .ingest 0 10, .select 0 true, .finish 0 2 20, .ingest 0 10, .select 0 true]
+    runSel s0 evs = true ∧ deadlocked (evs.foldl step s0) = false ∧ invB (evs.foldl step s0) = true
+      ∧ (evs.take 4 |>.foldl step s0).ingesters = [.waiting] ∧ (evs.foldl step s0).l0 = 1 := by decide
+
+/-- `stalled_has_runner` / `stalled_select_takes` have inhabitants: in the state after the third
+    ingest above an ingester is parked and the compaction thread is awake -/
+example :
+    let s : St := ⟨2, 1000, 2, 20, [.waiting], [.running], false, true⟩
+    (∃ t ∈ s.ingesters, t = .waiting) ∧ idle s = true ∧ selOK s (.select 0 true) = true
+      ∧ selOK s (.select 0 false) = false := by decide
+
+/-- `finish_shrinks`: an in-flight compactor and a non-empty level 0 -/
+example : (step (⟨2, 1000, 2, 20, [.waiting], [.inflight], false, true⟩ : St) (.finish 0 2 20)).l0 = 0 := by decide
+
+/-- `sel` on both sides of the file limit: 4 level-0 files with 4 resp. 5 level-1 files under the
+    hull, 8 files per compaction -/
+example : sel ⟨100, 1000, 8, 2, 1000, 4, 1000⟩ ⟨4, 40, 4, 400, false⟩ = true
+    ∧ sel ⟨100, 1000, 8, 2, 1000, 4, 1000⟩ ⟨4, 40, 5, 400, false⟩ = false
+    ∧ overLimit ⟨100, 1000, 8, 2, 1000, 4, 1000⟩ ⟨4, 40, 5, 400, false⟩ = true := by decide
+
+/-- `sel_sound_partial`: a two-level tree — two overlapping level-0 files over one level-1 file —
+    on which `sel`, `hullChoosable` and the selector model's answer all hold, and the same tree
+    under a file limit of 2 on which `sel` fails and the model offers nothing -/
+example :
+    let t : Tree := [[⟨0, [1], [5], 10, 7⟩, ⟨1, [2], [6], 10, 9⟩], [⟨2, [0], [3], 30, 3⟩]]
+    sel ⟨100, 1000, 8, 2, 1000, 4, 1000⟩ (summary t) = true ∧ hullChoosable ⟨100, 1000, 8, 2, 1000, 4, 1000⟩ t = true
+      ∧ nextSome ⟨100, 1000, 8, 2, 1000, 4, 1000⟩ t = true
+      ∧ sel ⟨100, 1000, 2, 2, 1000, 2, 1000⟩ (summary t) = false ∧ nextSome ⟨100, 1000, 2, 2, 1000, 2, 1000⟩ t = false := by decide
+
+end Blue.Props.C20
+
+#print axioms Blue.Props.C20.writes_never_all_parked_partial
+#print axioms Blue.Props.C20.fresh_store_inv
+#print axioms Blue.Props.C20.inv_along_run
+#print axioms Blue.Props.C20.inv_checkable
+#print axioms Blue.Props.C20.stalled_has_runner
+#print axioms Blue.Props.C20.stalled_select_takes
+#print axioms Blue.Props.C20.finish_shrinks
+#print axioms Blue.Props.C20.finish_wakes
+#print axioms Blue.Props.C20.ingest_wakes
+#print axioms Blue.Props.C20.deadlock_when_selector_starves
+#print axioms Blue.Props.C20.deadlock_without_ingest_notify
+#print axioms Blue.Props.C20.sleeper_with_work
+#print axioms Blue.Props.C20.selOK_of_sel
+#print axioms Blue.Props.C20.sel_iff
+#print axioms Blue.Props.C20.sel_sound_partial
+#print axioms Blue.Props.C20.sel_or_overLimit
+#print axioms Blue.Props.C20.stall_above_file_limit
+#print axioms Blue.Props.C20.hull_above_file_limit
+#print axioms Blue.Props.C20.default_sel_fails_from_53
+#print axioms Blue.Props.C20.default_sel_upto_52
+#print axioms Blue.ConstsTie.lsmtk_defaults
+#print axioms Blue.ConstsTie.lsmtk_num_levels
